@@ -150,6 +150,18 @@ theorem a85_body_rt (cs : List Nat) (x : Bytes) : a85decode (a85Body cs x) = .ok
 
 example : a85decode (a85Body [1, 5] [0, 0, 0, 0, 0xff, 0xfe]) = .ok [0, 0, 0, 0, 0xff, 0xfe] := by decide
 
+/-- `ascii85decode` (strip regexes `^\\s*<?\\s*~\\s*` and `\\s*~\\s*>?\\s*$`, then `a85decode`) inverts the
+framed encoder for every byte string: optional `<~` or `~` in front, `~>`, `~` or nothing at the
+end, white space anywhere around the markers and between groups - including the empty payload,
+where the start pattern consumes the `~` of a bare `~>`. -/
+theorem a85_rt (cs : List Nat) (pre post : Nat × Nat × Nat × Nat) (x : Bytes) :
+    ascii85decode (a85Enc cs pre post x) = .ok x :=
+  ascii85decode_a85Enc cs pre post x
+
+/-- Non-vacuity: data whose first digit is `<`, no `<~` marker, `~>` at the end. -/
+example : ascii85decode (a85Enc [2] (0, 0, 0, 0) (2, 0, 0, 0) [0x54, 0x02, 0x00]) = .ok [0x54, 0x02, 0x00] := by decide
+example : (a85Enc [2] (0, 0, 0, 0) (2, 0, 0, 0) [0x54, 0x02, 0x00]).head? = some 60 := by decide
+
 /-! ## LZW -/
 
 /-- LZW (early change, as `LZWDecoder` implements it): for EVERY byte string and EVERY placement
@@ -257,6 +269,16 @@ def stageAhx (inflate : Bytes → Bytes) (name : Bytes) (hn : name ∈ LITERALS_
   rt := by
     rintro y z ⟨u, cs, tail, hp, rfl⟩
     rw [decodeStep_ahx inflate name pr _ hn, ahx_rt]
+    exact predictor_rt pr y u hp
+
+/-- ASCII85 stage (either name): any framing / `z` / white-space choice. -/
+def stageA85 (inflate : Bytes → Bytes) (name : Bytes) (hn : name ∈ LITERALS_ASCII85_DECODE) (pr : Option Parms) :
+    Stage inflate where
+  filt := (name, pr)
+  Encodes y z := ∃ u cs pre post, PredEncodes pr y u ∧ z = a85Enc cs pre post u
+  rt := by
+    rintro y z ⟨u, cs, pre, post, hp, rfl⟩
+    rw [decodeStep_a85 inflate name pr _ hn, a85_rt]
     exact predictor_rt pr y u hp
 
 /-- RunLength stage (either name): any valid segmentation. -/
